@@ -358,10 +358,10 @@ def ev_cov(case, rec):
 
 
 SUBCHECKS = [
-    Sub('epoch', gen_epoch, ev_epoch, chunk=2, floor=1000, guard=True),
-    Sub('identity', gen_identity, ev_identity, chunk=1, floor=100, guard=True),
-    Sub('wrappers', gen_wrap, ev_wrap, chunk=1, floor=200, guard=True),
-    Sub('covariance', gen_cov, ev_cov, chunk=1, floor=50, guard=True),
+    Sub('epoch', gen_epoch, ev_epoch, chunk=2, floor=1000, guard=True, envs=1),
+    Sub('identity', gen_identity, ev_identity, chunk=1, floor=100, guard=True, envs=1),
+    Sub('wrappers', gen_wrap, ev_wrap, chunk=1, floor=200, guard=True, envs=1),
+    Sub('covariance', gen_cov, ev_cov, chunk=1, floor=50, guard=True, envs=1),
 ]
 
 
